@@ -345,6 +345,10 @@ def run(report, p):
                 stops = {h.id for h in g.nodes if h.kind == "loop"} | {g.exit.id}
                 allc = set().union(*counters.values()) if counters else set()
                 path = g.find_path(cn, stops, avoid=allc)
+                if path is not None:
+                    from .common import consistent_path
+
+                    path = consistent_path(g, cn, stops, allc)
                 r4.check(path is None, f, c, "a discrepancy is logged but no failure counter is incremented on this path: the command can exit 0", witness=g.fmt_path(path) if path else None, construct=f"unpaired log: {lit[:60]}")
         # every counter incremented in the traversal is tested in the tail
         outer, inner = traversal_loop(p, f)
